@@ -13,7 +13,10 @@ Failed(r) ==
             ELSE IF Has(r.out, "err") THEN {"serialize_raised"}
             ELSE Clause("bytes_exact", r.out.bytes = T!EncC(r.c, r.v, r.boxed = 1))
                  \cup (IF Has(r.back, "err") THEN {"parse_raised"}
-                       ELSE Clause("parse_back_equal", r.back.v = r.v) \cup Clause("consumed_all", r.back.used = Len(r.out.bytes)))
+                       ELSE Clause("parse_back_equal", r.back.v = r.v) \cup Clause("consumed_all", r.back.used = Len(r.out.bytes))
+                            \cup (IF ~Has(r, "again") THEN {}
+                                  ELSE IF Has(r.again, "err") THEN {"parse_result_cannot_be_serialised_again"}
+                                  ELSE Clause("parse_result_serialises_to_other_bytes", r.again.bytes = r.out.bytes)))
       [] r.op = "tl_hostile" -> {}      \* malformed input between the round trips: executed for its effect on later calls only
       [] r.op = "schema" ->
             LET s == T!ByName[r.name] IN
@@ -26,6 +29,7 @@ Failed(r) ==
             \cup Clause("from_bytes_fields", Has(r, "from_bytes") =>
                         r.from_bytes = [workchain |-> r.workchain, shard |-> r.shard, seqno |-> r.seqno, root |-> r.root, file |-> r.file])
             \cup Clause("bytes_roundtrip", r.rt_bytes = 1) \cup Clause("dict_roundtrip", r.rt_dict = 1)
+            \cup Clause("distinct_ids_compare_equal", Has(r, "distinct") => r.distinct = 1)
             \cup Clause("hashable", r.hashable = 1) \cup Clause("equal_ids_collide", r.collide = 1)
 TInit == KitInit
 TNext == KitNext(Failed)
